@@ -82,11 +82,11 @@ def classify_ref(op, desc, shapes, sizes):
         R.check_brackets(ins + (outs or []))
     except R.ParseError:
         return "illformed:brackets"
-    if outs is None:
-        return "unknown"
-    rule = rule_violation(op, ins, outs)
+    rule = rule_violation(op, ins, outs or [])
     if rule:
         return "illformed:" + rule
+    if outs is None:
+        return "unknown"
     if len(ins) != len(shapes):
         return "illformed:tensor-count"
     # a size keyword for an axis that does not occur in the description is ignored by einx on purpose (solve.py: "Remove unused constraints")
@@ -296,6 +296,13 @@ def rule_table():
         ("add", "a [b], b -> a b", [x, y], {}, "brackets in an element-wise op"),
         ("sum", "a [b] -> a b", [x], {}, "reduced axis in the output"),
         ("sum", "a [b] -> a [b]", [x], {}, "brackets in the output of a reduction"),
+        ("add", "a [b...], a [b...]", [x, x], {}, "brackets (around an ellipsis) in an element-wise op"),
+        ("add", "a [b]..., a [b]... -> a b...", [x, x], {}, "brackets (under an ellipsis) in an element-wise op"),
+        ("multiply", "a [b...], a", [x, y[:2]], {}, "brackets (around an ellipsis) in an element-wise op"),
+        ("id", "a [...] -> [...] a", [x], {}, "brackets around an anonymous ellipsis in id"),
+        ("where", "a [...], a ..., a ... -> a ...", [x > 1, x, x], {}, "brackets around an anonymous ellipsis in where"),
+        ("sum", "a [b...] -> a [b...]", [x], {}, "brackets (around an ellipsis) in the output of a reduction"),
+        ("dot", "a [b...], [b...] c -> a c [b...]", [x, x.T], {}, "brackets (around an ellipsis) in the output of dot"),
         ("id", "a b -> a", [x], {}, "non-unit input axis missing from the id output"),
         ("id", "a [b] -> a b", [x], {}, "brackets in id"),
         ("sum", "(a + b) -> a", [y], {"a": 1}, "'+' outside id"),
